@@ -7,6 +7,7 @@ pub mod c02;
 pub mod c06;
 pub mod c08;
 pub mod bddutil;
+pub mod c13;
 pub mod c09;
 
 pub struct Prop {
@@ -22,5 +23,6 @@ pub fn registry() -> Vec<Prop> {
         Prop { id: "C06", run: c06::run, replay: c06::replay },
         Prop { id: "C08", run: c08::run, replay: c08::replay },
         Prop { id: "C09", run: c09::run, replay: c09::replay },
+        Prop { id: "C13", run: c13::run, replay: c13::replay },
     ]
 }
